@@ -144,6 +144,116 @@ theorem exprOk_or (l r : Expr) (w : Option Cls) (ihl : ExprOk l) (ihr : ExprOk r
                 simpa [Nat.add_assoc] using this)
               simpa [evalW, hEl, hEr, ht, bindWrap] using this
 
+theorem exprOk_ite (c a b : Expr) (w : Option Cls) (ihc : ExprOk c) (iha : ExprOk a) (ihb : ExprOk b) :
+    ExprOk (.ite c a b w) := by
+  intro cs hcs code pc st env out hcode henv
+  simp only [compileE] at hcs
+  cases hcc : compileE c with
+  | none => simp [hcc] at hcs
+  | some cc =>
+    cases hca : compileE a with
+    | none => simp [hcc, hca] at hcs
+    | some ca =>
+      cases hcb : compileE b with
+      | none => simp [hcc, hca, hcb] at hcs
+      | some cb =>
+        cases hj1 : jumpArgs (codeSize ca + 4) with
+        | none => simp [hcc, hca, hcb, hj1] at hcs
+        | some p1 =>
+          obtain ⟨h1, l1⟩ := p1
+          cases hj2 : jumpArgs (codeSize cb + 1) with
+          | none => simp [hcc, hca, hcb, hj1, hj2] at hcs
+          | some p2 =>
+            obtain ⟨h2, l2⟩ := p2
+            simp only [hcc, hca, hcb, hj1, hj2, Option.some.injEq] at hcs
+            subst hcs
+            have hea := codeSize_even ca
+            have heb := codeSize_even cb
+            let body := cc ++ [Instr.extArg h1, .popJumpIfFalse l1] ++ ca ++ [.extArg h2, .jumpForward l2] ++ cb
+            have hcode' : CodeAt code pc (wrapPre w ++ body ++ wrapPost w) := by
+              simpa [body, List.append_assoc] using hcode
+            have hsz : codeSize (wrapPre w ++ cc ++ [.extArg h1, .popJumpIfFalse l1] ++ ca ++ [.extArg h2, .jumpForward l2] ++ cb ++ wrapPost w)
+                = codeSize (wrapPre w ++ body ++ wrapPost w) := by simp [body, List.append_assoc]
+            rw [hsz]
+            have hb := hcode'.body
+            have hbody : body = cc ++ (.extArg h1 :: .popJumpIfFalse l1 :: (ca ++ (.extArg h2 :: .jumpForward l2 :: cb))) := by
+              simp [body, List.append_assoc]
+            rw [hbody] at hb
+            have hbc : CodeAt code (pc + codeSize (wrapPre w)) cc := hb.left
+            have hbj1 := hb.right
+            have hbt : CodeAt code (pc + codeSize (wrapPre w) + codeSize cc + 4) (ca ++ (.extArg h2 :: .jumpForward l2 :: cb)) := by
+              have := hbj1.tail.tail
+              simpa [Instr.size, Nat.add_assoc] using this
+            have hba : CodeAt code (pc + codeSize (wrapPre w) + codeSize cc + 4) ca := hbt.left
+            have hbj2 : CodeAt code (pc + codeSize (wrapPre w) + codeSize cc + 4 + codeSize ca) (.extArg h2 :: .jumpForward l2 :: cb) :=
+              hbt.right
+            have hbb : CodeAt code (pc + codeSize (wrapPre w) + codeSize cc + 4 + codeSize ca + 4) cb := by
+              have := hbj2.tail.tail
+              simpa [Instr.size, Nat.add_assoc] using this
+            have hsize : codeSize body = codeSize cc + 4 + codeSize ca + 4 + codeSize cb := by
+              simp [body, Instr.size]; omega
+            have hd1 : 2 * ((codeSize ca + 4) / 2) = codeSize ca + 4 := by omega
+            have hd2 : 2 * ((codeSize cb + 1) / 2) = codeSize cb := by omega
+            cases hEc : evalW env c with
+            | error e =>
+              have := exec_wrap (st := st) (out := out) w body (.error e) hcode' henv (fun st' => by
+                have := ihc cc hcc code _ st' env out hbc henv
+                simpa [hEc, ExecSpec] using this)
+              simpa [evalW, hEc, bindWrap] using this
+            | ok pc0 =>
+              obtain ⟨vc, c0⟩ := pc0
+              by_cases ht : truthy vc
+              · cases hEa : evalW env a with
+                | error e =>
+                  have := exec_wrap (st := st) (out := out) w body (.error e) hcode' henv (fun st' => by
+                    have r1 := ihc cc hcc code _ st' env out hbc henv
+                    have rj := exec_popJump (st := st') (env := env) (out := out) (v := vc) hbj1 hj1
+                    have r2 := iha ca hca code _ st' env out hba henv
+                    simp only [hEc, hEa, ExecSpec, ht, if_true] at r1 r2 rj ⊢
+                    exact (r1.trans rj).halts r2)
+                  simpa [evalW, hEc, hEa, ht, bindWrap] using this
+                | ok pa =>
+                  obtain ⟨va, c1⟩ := pa
+                  have := exec_wrap (st := st) (out := out) w body (.ok (va, c0 && c1)) hcode' henv (fun st' => by
+                    have r1 := ihc cc hcc code _ st' env out hbc henv
+                    have rj := exec_popJump (st := st') (env := env) (out := out) (v := vc) hbj1 hj1
+                    have r2 := iha ca hca code _ st' env out hba henv
+                    have rf := exec_jumpForward (st := va :: st') (env := env) (out := out) hbj2 hj2
+                    simp only [hEc, hEa, ExecSpec, ht, if_true] at r1 r2 rj ⊢
+                    have := ((r1.trans rj).trans r2).trans rf
+                    rw [hd2] at this
+                    rw [hsize]
+                    simpa [Nat.add_assoc] using this)
+                  simpa [evalW, hEc, hEa, ht, bindWrap] using this
+              · cases hEb : evalW env b with
+                | error e =>
+                  have := exec_wrap (st := st) (out := out) w body (.error e) hcode' henv (fun st' => by
+                    have r1 := ihc cc hcc code _ st' env out hbc henv
+                    have rj := exec_popJump (st := st') (env := env) (out := out) (v := vc) hbj1 hj1
+                    have r2 := ihb cb hcb code _ st' env out hbb henv
+                    simp only [hEc, hEb, ExecSpec, ht, Bool.false_eq_true, if_false] at r1 r2 rj ⊢
+                    rw [hd1] at rj
+                    have e1 : pc + codeSize (wrapPre w) + codeSize cc + 4 + (codeSize ca + 4)
+                        = pc + codeSize (wrapPre w) + codeSize cc + 4 + codeSize ca + 4 := by omega
+                    rw [e1] at rj
+                    exact (r1.trans rj).halts r2)
+                  simpa [evalW, hEc, hEb, ht, bindWrap] using this
+                | ok pb =>
+                  obtain ⟨vb, c2⟩ := pb
+                  have := exec_wrap (st := st) (out := out) w body (.ok (vb, c0 && c2)) hcode' henv (fun st' => by
+                    have r1 := ihc cc hcc code _ st' env out hbc henv
+                    have rj := exec_popJump (st := st') (env := env) (out := out) (v := vc) hbj1 hj1
+                    have r2 := ihb cb hcb code _ st' env out hbb henv
+                    simp only [hEc, hEb, ExecSpec, ht, Bool.false_eq_true, if_false] at r1 r2 rj ⊢
+                    rw [hd1] at rj
+                    have e1 : pc + codeSize (wrapPre w) + codeSize cc + 4 + (codeSize ca + 4)
+                        = pc + codeSize (wrapPre w) + codeSize cc + 4 + codeSize ca + 4 := by omega
+                    rw [e1] at rj
+                    have := (r1.trans rj).trans r2
+                    rw [hsize]
+                    simpa [Nat.add_assoc] using this)
+                  simpa [evalW, hEc, hEb, ht, bindWrap] using this
+
 /-- the code of every expression computes its wrapper-aware source value (or raises the same exception) -/
 theorem exec_expr : ∀ e : Expr, ExprOk e
   | .lit c w => exprOk_lit c w
@@ -154,5 +264,6 @@ theorem exec_expr : ∀ e : Expr, ExprOk e
   | .or l r w => exprOk_or l r w (exec_expr l) (exec_expr r)
   | .neg e w => exprOk_neg e w (exec_expr e)
   | .not e w => exprOk_not e w (exec_expr e)
+  | .ite c a b w => exprOk_ite c a b w (exec_expr c) (exec_expr a) (exec_expr b)
 
 end ErgVerif.C01
